@@ -8,6 +8,13 @@ Clauses
               zero band.
   normalize   System.normalize / atomman.lammps.normalize on fully periodic systems.
 
+Every clause judges the call after a HISTORY on the same object / in the same process (see "histories and input
+forms" below): the periodicity may have been set through the constructor, the setter, element-wise in place
+(system.pbc[i] = ..., as atomman's tutorial and its own defect generators do), through an aliased bool ndarray or a
+system sharing the array; the cell and the positions may have been edited through every public route, the system
+rebuilt / copied / reloaded, derived quantities read, other systems wrapped before.  Inputs come in every documented
+form (lists, tuples, integer-typed, non-contiguous, read-only cell arrays, relative positions with scale=True).
+
 Oracles are numpy only (own solve for relative coordinates, own lattice parameters, pbt.oracles.nearest_image for the
 true nearest-image distances); nothing here calls Box.inside, Box.a/alpha/..., dvect or dmag.
 """
@@ -28,17 +35,37 @@ RULE = ("cells in LAMMPS triangular form (lengths 0.5-50, tilts up to 1.5 length
         "half-integers (faces) and a few values up to +-1e5 cells away; 0-3 extra per-atom properties.  wrap_exact: "
         "power-of-two lengths, dyadic tilts/origin/coordinates, decided exactly.  Non-trivial: at least one atom "
         "outside the cell before the call AND (cell tilted or left-handed or pbc mixed; for normalize: tilted or "
-        "left-handed or rotated)")
+        "left-handed or rotated).  Every case also carries a HISTORY applied to the object before the judged call (none in "
+        "about a quarter of the cases; else 1-4 operations: periodicity changed through the setter in five input forms, "
+        "element-wise in place (system.pbc[i] = ...), by slice, through the aliased bool ndarray handed in or through a "
+        "system sharing the array; scaled read; earlier wrap; box_set(vects= | avect=.., scale=True/False); position edits "
+        "in place / by setter / through atoms_prop(scale=True); rebuild from the same parts, safecopy, deepcopy, "
+        "atoms_ix[:], data-model round trip; reads of dvect/dmag/atoms_df/str/box parameters/normalize; a wrap of another "
+        "system in the process) and INPUT FORMS (positions as float array, nested list, Fortran-ordered, strided view, "
+        "whole numbers as integer array / list of ints, relative positions with System(scale=True); cell as array, "
+        "list, tuple, Fortran-ordered, read-only, avect/bvect/cvect; pbc as list, tuple, bool ndarray, ints, numpy bools, "
+        "strided, read-only; safecopy).  The judged state (cell, origin, positions, pbc) is read back from the system "
+        "after the history; 'pbc' of a case is the periodicity at the judged call, 'pbc0' the one given to the constructor")
 ASSUMPTIONS = ["numpy linear algebra (solve, inv, det) is correct",
                "pbt.oracles.nearest_image (exhaustive search with proven radius) gives the true nearest-image distance",
                "normalize is judged only on cells with cond(vects) <= 1e3 (its hard-coded orthonormality asserts and "
                "the lattice-parameter rebuild presume a conditioned cell); worse cells are counted as illcond_skipped",
                "Box.vects zeroing components below 1e-9*max|vects| is a documented floor: comparisons of cell vectors "
                "are never tighter than 1e-8 relative and the inside band includes its effect",
-               "'inside' is inclusive of the faces (the property text does not say half-open)"]
+               "'inside' is inclusive of the faces (the property text does not say half-open)",
+               "system.pbc[i] = value is a supported way to change the periodicity (System.pbc returns the array it uses; "
+               "atomman's tutorial 1.3 and its FreeSurface/Boundary/Dislocation generators do exactly this): whatever "
+               "system.pbc reports at the time of the call is the periodicity wrap/normalize have to honour",
+               "a read-only positions array is the caller's restriction (Atoms keeps the array it is given, wrap writes "
+               "in place): not generated",
+               "normalize as an earlier operation in a history is only called inside the domain the property states "
+               "(fully periodic, cond <= 1e3)"]
 LEVEL_TEXT = ("Random exploration of System.wrap over right/left-handed, rotated and strongly tilted cells with every "
               "periodicity setting and atoms up to 1e5 cells outside or exactly on faces (faces decided exactly on dyadic "
-              "inputs), and of System.normalize / lammps.normalize over fully periodic systems with cond <= 1e3.")
+              "inputs), and of System.normalize / lammps.normalize over fully periodic systems with cond <= 1e3; each after a random "
+              "history on the same object / in the same process (periodicity changed by setter, element-wise in place or through "
+              "an aliased array; cell and position edits; rebuilds, copies, reloads; reads; earlier wraps) and over the documented "
+              "input forms (lists, tuples, integer-typed, non-contiguous, read-only cell, scale=True).")
 TECHNIQUE = ("independent relative-coordinate solve with derived bands, exact dyadic arithmetic on faces, "
              "exhaustive nearest-image search for pair distances, deep snapshot comparison")
 WALL = {'quick': 60, 'thorough': 600}
@@ -94,18 +121,358 @@ def atypes(n):
     return np.array([1 + (i * i + i // 2) % 3 for i in range(n)], dtype=int)
 
 
-def build_system(am, case, pbc):
+# key of the open finding: positions handed over as whole numbers (integer ndarray or nested list of Python ints) are
+# stored by Atoms with an integer dtype; everything that writes positions back (wrap, box_set(scale=True) and with it
+# normalize) is then cast to integers silently
+KEY_INTPOS = 'C05:pos-integer-typed:truncated-on-write'
+
+_DEFAULT_FORMS = {'pos': 'float', 'box': 'array', 'pbc': 'list', 'scaled': False, 'safecopy': False}
+
+
+def _form_pos(x, form):
+    """the (n,3) float array x in one of the documented input forms ("list/ndarray")"""
+    if form == 'float':
+        return x.copy()
+    if form == 'list':
+        return x.tolist()
+    if form == 'fortran':
+        return np.asfortranarray(x)
+    if form == 'strided':
+        big = np.zeros((x.shape[0], 6), dtype=float)
+        big[:, ::2] = x
+        return big[:, ::2]
+    if form == 'int_array':
+        return x.astype(np.int64)
+    if form == 'int_list':
+        return [[int(v) for v in row] for row in x]
+    # NOT generated: a read-only positions array.  Atoms(pos=array) keeps the array it is given (documented:
+    # "direct setting may result in the Atoms' property pointing to the original numpy array") and wrap writes the
+    # positions in place, so numpy's "assignment destination is read-only" is the caller's own restriction.
+    raise HarnessError('pos form %r' % (form,))
+
+
+def _form_box(am, V, o, form):
+    if form == 'array':
+        return am.Box(vects=V.copy(), origin=o.copy())
+    if form == 'list':
+        return am.Box(vects=V.tolist(), origin=o.tolist())
+    if form == 'tuple':
+        return am.Box(vects=tuple(tuple(r) for r in V.tolist()), origin=tuple(o.tolist()))
+    if form == 'fortran':
+        return am.Box(vects=np.asfortranarray(V), origin=o.copy())
+    if form == 'readonly':
+        Vr, orr = V.copy(), o.copy()
+        Vr.flags.writeable = False
+        orr.flags.writeable = False
+        return am.Box(vects=Vr, origin=orr)
+    if form == 'avects':
+        return am.Box(avect=V[0].copy(), bvect=V[1].tolist(), cvect=V[2].copy(), origin=o.copy())
+    raise HarnessError('box form %r' % (form,))
+
+
+def _form_pbc(pbc, form):
+    """-> (object to hand to atomman, the bool ndarray atomman may alias or None)"""
+    pbc = [bool(p) for p in pbc]
+    if form == 'list':
+        return list(pbc), None
+    if form == 'tuple':
+        return tuple(pbc), None
+    if form == 'ndarray':
+        a = np.array(pbc, dtype=bool)
+        return a, a
+    if form == 'int_list':
+        return [int(p) for p in pbc], None
+    if form == 'int_array':
+        return np.array([int(p) for p in pbc], dtype=np.int64), None
+    if form == 'npbool':
+        return [np.bool_(p) for p in pbc], None
+    if form == 'strided':
+        big = np.zeros(6, dtype=bool)
+        big[::2] = pbc
+        return big[::2], big[::2]
+    if form == 'readonly':
+        a = np.array(pbc, dtype=bool)
+        a.flags.writeable = False
+        return a, None
+    raise HarnessError('pbc form %r' % (form,))
+
+
+def build_system(am, case, pbc, exact=False):
+    """-> system, V, o, s, x, props, ctx.   ctx: the model of the history (see apply_history)"""
     c = case['cell']
+    forms = dict(_DEFAULT_FORMS, **(case.get('forms') or {}))
     V, o = gens.cell_vects(c), gens.cell_origin(c)
     s = np.array(case['rel'], dtype=float)
     x = s @ V + o
+    if forms['pos'] in ('int_array', 'int_list'):
+        # whole-number Cartesian positions (what a file with "0 0 0 / 2 2 2" coordinates or a hand-written list gives)
+        x = np.rint(x)
+        s = (x - o) @ np.linalg.inv(V) if exact else rel_coords(x, V, o)
     n = len(s)
     props = prop_values(n, case['nprops'])
-    atoms = am.Atoms(atype=atypes(n), pos=x.copy(), **{k: v.copy() for k, v in props.items()})
+    scaled = bool(forms['scaled']) and forms['pos'] not in ('int_array', 'int_list')
+    atoms = am.Atoms(atype=atypes(n), pos=_form_pos(s if scaled else x, forms['pos']), **{k: v.copy() for k, v in props.items()})
     symbols = ('Al', 'Cu', 'Ni') if case.get('symbols') else None
     kw = {} if symbols is None else {'symbols': symbols}
-    system = am.System(atoms=atoms, box=am.Box(vects=V.copy(), origin=o.copy()), pbc=list(pbc), **kw)
-    return system, V, o, s, x, props
+    if scaled:
+        kw['scale'] = True
+    if forms['safecopy']:
+        kw['safecopy'] = True
+    pbc_obj, handed = _form_pbc(pbc, forms['pbc'])
+    system = am.System(atoms=atoms, box=_form_box(am, V, o, forms['box']), pbc=pbc_obj, **kw)
+    if scaled:
+        # atomman computed the Cartesian positions itself: they are the input of everything that follows
+        x_am = np.array(system.atoms.pos, dtype=float)
+        tol = 1e-13 * (3 * max(1.0, float(np.abs(s).max())) * float(np.abs(V).max()) + float(np.abs(o).max()))
+        require(x_am.shape == x.shape and float(np.abs(x_am - x).max()) <= tol,
+                lambda: 'System(scale=True) did not place the atoms at rel . vects + origin: off by %.3g' % float(np.abs(x_am - x).max()))
+        x = x_am
+    ctx = {'pbc': [bool(p) for p in pbc],       # what system.pbc has to report now
+           'cached': [bool(p) for p in pbc],    # the setting at the last constructor / setter call on this object
+           'handed': handed,                    # bool ndarray handed to atomman that it may alias
+           'changed': False,                    # cell or positions changed since construction
+           'int_stored': np.asarray(system.atoms.view['pos']).dtype.kind in 'iu',
+           'forms': forms, 'scaled': scaled}
+    return system, V, o, s, x, props, ctx
+
+
+# ----------------------------------------------------------------------------- histories
+#
+# The property holds for a system whatever happened to it before.  A history is a list of operation dicts, interpreted
+# against the real object; ctx carries the model (what system.pbc has to report).  Nothing here is judged except that
+# the periodicity set through the documented routes is the one reported: the judged call comes afterwards and is judged
+# on the state read back from the system (cell, origin, positions, pbc) with the same oracles as for a fresh object.
+
+_IN_PLACE = ('elem', 'elem_all', 'slice', 'alias', 'shared')
+
+
+def _op_pbc(am, system, op, ctx, labels):
+    to = [bool(b) for b in op['to']]
+    how = op['how']
+    arr = system.pbc
+    if how in _IN_PLACE and not (isinstance(arr, np.ndarray) and arr.flags.writeable):
+        how = 'setter_list'       # a read-only array was handed in: in-place assignment is numpy's refusal, not atomman's
+    if how == 'alias':
+        h = ctx['handed']
+        if h is not None and h.flags.writeable and np.shares_memory(h, arr):
+            h[...] = to           # the caller changes the array it gave to atomman
+            labels.add('pbc_alias')
+            ctx['pbc'] = [bool(p) for p in system.pbc]
+            return
+        how = 'elem'
+    if how == 'shared':
+        # atoms_ix / atoms_extend hand the host's pbc array to the new system: change it there
+        other = system.atoms_ix[0:1]
+        if np.shares_memory(other.pbc, arr):
+            other.pbc[:] = to
+            labels.add('pbc_shared')
+            ctx['pbc'] = [bool(p) for p in system.pbc]
+            return
+        how = 'elem'
+    if how == 'elem':
+        for i in range(3):
+            if bool(system.pbc[i]) != to[i]:
+                system.pbc[i] = to[i]
+        labels.add('pbc_elem')
+    elif how == 'elem_all':
+        for i in range(3):
+            system.pbc[i] = to[i]
+        labels.add('pbc_elem')
+    elif how == 'slice':
+        system.pbc[:] = to
+        labels.add('pbc_elem')
+    else:
+        if how == 'setter_list':
+            system.pbc = list(to)
+        elif how == 'setter_tuple':
+            system.pbc = tuple(to)
+        elif how == 'setter_array':
+            a = np.array(to, dtype=bool)
+            system.pbc = a
+            ctx['handed'] = a
+        elif how == 'setter_int':
+            system.pbc = np.array([int(b) for b in to])
+        elif how == 'setter_npbool':
+            system.pbc = [np.bool_(b) for b in to]
+        else:
+            raise HarnessError('pbc op %r' % (how,))
+        ctx['cached'] = list(to)
+        labels.add('pbc_setter')
+    ctx['pbc'] = list(to)
+    got = [bool(p) for p in system.pbc]
+    require(got == to, lambda: 'periodicity set to %r through %s, but system.pbc reports %r' % (to, op['how'], got))
+
+
+def _op_box_set(system, op, ctx, labels):
+    V = np.array(system.box.vects, dtype=float)
+    o = np.array(system.box.origin, dtype=float)
+    newV = V * np.array(op['f'], dtype=float)[:, None]          # rows rescaled: handedness kept
+    newo = o + np.array(op['d'], dtype=float) @ V
+    if op['via'] == 'vects':
+        system.box_set(vects=newV, origin=newo, scale=bool(op['scale']))
+    else:
+        system.box_set(avect=newV[0], bvect=newV[1], cvect=newV[2], origin=newo, scale=bool(op['scale']))
+    ctx['changed'] = True
+    labels.add('hist_box_set')
+
+
+def _op_pos(system, op, ctx, labels):
+    if np.asarray(system.atoms.view['pos']).dtype.kind != 'f':
+        return                          # integer-stored positions (open finding): a float edit is numpy's refusal
+    n = system.natoms
+    i = int(op['i']) % n
+    d = np.array(op['d'], dtype=float)
+    via = op['via']
+    if via == 'inplace':
+        system.atoms.pos[i] += d @ np.array(system.box.vects, dtype=float)
+    elif via == 'setter':
+        newx = np.array(system.atoms.pos, dtype=float)
+        newx[i] += d @ np.array(system.box.vects, dtype=float)
+        system.atoms.pos = newx
+    elif via == 'scaled':
+        sp = np.array(system.atoms_prop(key='pos', scale=True), dtype=float)
+        sp[i] += d
+        system.atoms_prop(key='pos', value=sp, scale=True)
+    elif via == 'scaled_index':
+        sp = np.array(system.atoms_prop(key='pos', index=i, scale=True), dtype=float)
+        system.atoms_prop(key='pos', index=i, value=sp + d, scale=True)
+    else:
+        raise HarnessError('pos op %r' % (via,))
+    ctx['changed'] = True
+    labels.add('hist_pos_edit')
+
+
+def _op_rebuild(am, system, op, ctx, labels):
+    import copy
+    via = op['via']
+    if via == 'deepcopy':
+        new = copy.deepcopy(system)           # private state is copied as it is: 'cached' stays
+    else:
+        if via == 'shared':
+            new = am.System(atoms=system.atoms, box=system.box, pbc=system.pbc, symbols=system.symbols)
+        elif via == 'safecopy':
+            new = am.System(atoms=system.atoms, box=system.box, pbc=system.pbc, symbols=system.symbols, safecopy=True)
+        elif via == 'ix':
+            new = system.atoms_ix[:]
+        elif via == 'model':
+            new = am.System(model=system.model())
+        else:
+            raise HarnessError('rebuild op %r' % (via,))
+        ctx['cached'] = list(ctx['pbc'])
+    if via == 'model':
+        ctx['changed'] = True                 # numbers went through the data model: re-read
+    labels.add('hist_rebuild')
+    return new
+
+
+def _op_read(system, op, ctx, labels):
+    what = op['what']
+    n = system.natoms
+    if what == 'dvect':
+        system.dvect(0, n - 1)
+    elif what == 'dmag':
+        system.dmag(0, n - 1)
+    elif what == 'df':
+        system.atoms_df(scale=True)
+    elif what == 'str':
+        str(system)
+    elif what == 'box_params':
+        b = system.box
+        (b.a, b.b, b.c, b.alpha, b.beta, b.gamma, b.volume, b.reciprocal_vects)
+    elif what == 'normalize':
+        # an earlier normalize call (must leave the system as it was); only inside the domain the property states
+        # (fully periodic; cond <= 1e3, see ASSUMPTIONS).  On a system with a non-periodic direction whose atoms reach
+        # a face normalize pads the cell in its internal wrap and then fails its own orthonormality assert
+        # (AssertionError '1.000000 1.000000 1.001000'): outside the property text, not judged here.
+        if all(ctx['pbc']) and np.linalg.cond(np.array(system.box.vects, dtype=float)) <= 1e3 and not ctx['int_stored']:
+            system.normalize()
+    else:
+        raise HarnessError('read op %r' % (what,))
+    labels.add('hist_read')
+
+
+def _op_other_wrap(am, op, labels):
+    """process history: another system, other periodicity, atoms outside, wrapped first"""
+    other = am.System(atoms=am.Atoms(pos=np.array([[1.5, -0.5, 2.5], [0.25, 3.5, -1.5]])),
+                      box=am.Box(vects=np.array([[1.0, 0.0, 0.0], [0.5, 1.0, 0.0], [0.0, 0.25, 2.0]])), pbc=list(op['pbc']))
+    other.wrap()
+    labels.add('hist_other_wrap')
+
+
+def apply_history(am, system, hist, ctx, labels):
+    """-> the system the judged call is made on (a rebuild replaces the object)"""
+    for op in hist:
+        k = op['op']
+        if k == 'pbc':
+            _op_pbc(am, system, op, ctx, labels)
+        elif k == 'scaled_read':
+            system.atoms_prop(key='pos', scale=True)
+            system.box.reciprocal_vects
+            labels.add('prior_scaled_read')
+        elif k == 'wrap':
+            if op.get('ret'):
+                system.wrap(return_imageflags=True)
+            else:
+                system.wrap()
+            ctx['changed'] = True
+            labels.add('prior_wrap')
+        elif k == 'box_set':
+            _op_box_set(system, op, ctx, labels)
+        elif k == 'pos':
+            _op_pos(system, op, ctx, labels)
+        elif k == 'rebuild':
+            system = _op_rebuild(am, system, op, ctx, labels)
+        elif k == 'read':
+            _op_read(system, op, ctx, labels)
+        elif k == 'other_wrap':
+            _op_other_wrap(am, op, labels)
+        else:
+            raise HarnessError('history op %r' % (k,))
+    if hist:
+        labels.add('hist')
+    got = [bool(p) for p in system.pbc]
+    require(got == ctx['pbc'], lambda: 'system.pbc reports %r after a history that set %r' % (got, ctx['pbc']))
+    return system
+
+
+def case_history(case):
+    """the history of a case; cases written before histories existed carry 'prior'"""
+    if 'hist' in case:
+        return list(case['hist'])
+    prior = case.get('prior')
+    if prior == 'scaled_read':
+        return [{'op': 'scaled_read'}]
+    if prior == 'wrap_first':
+        return [{'op': 'wrap', 'ret': False}]
+    return []
+
+
+def form_labels(ctx, labels):
+    f = ctx['forms']
+    if f['pos'] != 'float':
+        labels.add('pos_' + ('int' if f['pos'].startswith('int') else f['pos']))
+    if ctx['scaled']:
+        labels.add('pos_scaled_ctor')
+    if f['box'] != 'array':
+        labels.add('box_form')
+    if f['pbc'] != 'list':
+        labels.add('pbc_form')
+    if f['pos'] != 'float' or ctx['scaled'] or f['box'] != 'array' or f['pbc'] != 'list' or f['safecopy']:
+        labels.add('forms')
+
+
+def keyed_for_integer_positions(oracle):
+    """Violations on a system whose positions atomman stored with an integer dtype are the open finding KEY_INTPOS."""
+    @functools.wraps(oracle)
+    def wrapped(case, *a, **kw):
+        ctx_out = {}
+        try:
+            return oracle(case, *a, ctx_out=ctx_out, **kw)
+        except Violation as v:
+            if v.key is None and ctx_out.get('int_stored'):
+                raise Violation('positions given as whole numbers are stored with dtype int64 and the result is cast to integers: ' + v.detail, key=KEY_INTPOS)
+            raise
+    return wrapped
 
 
 def snapshot(system):
@@ -167,20 +534,78 @@ _int8 = st.integers(0, 7)
 _int6 = st.integers(0, 5)
 
 
-# what happened to the system before the judged call (the property holds after any history): nothing, a scaled read
-# (fills the Box's reciprocal-vector cache), or an earlier wrap (which may already have enlarged the cell)
-_prior_wrap = st.sampled_from([None, None, 'scaled_read', 'wrap_first', 'wrap_first'])
-_prior_norm = st.sampled_from([None, 'scaled_read', 'scaled_read', 'wrap_first'])
+# what happened to the system before the judged call (the property holds after any history): see apply_history
+_PBC_HOWS = st.sampled_from(['elem', 'elem', 'elem', 'elem_all', 'slice', 'alias', 'alias', 'alias', 'shared', 'shared',
+                             'setter_list', 'setter_tuple', 'setter_array', 'setter_int', 'setter_npbool'])
+_pbc_op = st.builds(lambda how, to: {'op': 'pbc', 'how': how, 'to': to}, _PBC_HOWS, _pbcs)
+_scaled_read_op = st.just({'op': 'scaled_read'})
+_wrap_op = st.builds(lambda r: {'op': 'wrap', 'ret': r}, _bool)
+_f3 = st.lists(st.sampled_from([1.0, 1.0, 0.5, 2.0, 1.25, 0.75, 1.5]), min_size=3, max_size=3)
+_d3 = st.lists(st.sampled_from([0.0, 0.0, 0.5, -0.25, 1.0, -2.0, 0.3125, 3.0]), min_size=3, max_size=3)
+_box_op = st.builds(lambda via, f, d, sc: {'op': 'box_set', 'via': via, 'f': f, 'd': d, 'scale': sc},
+                    st.sampled_from(['vects', 'avect']), _f3, _d3, _bool)
+_pos_op = st.builds(lambda via, i, d: {'op': 'pos', 'via': via, 'i': i, 'd': d},
+                    st.sampled_from(['inplace', 'setter', 'scaled', 'scaled_index']), st.integers(0, 11), _d3)
+_rebuild_op = st.builds(lambda via: {'op': 'rebuild', 'via': via}, st.sampled_from(['shared', 'deepcopy', 'ix', 'model', 'safecopy']))
+_rebuild_exact_op = st.builds(lambda via: {'op': 'rebuild', 'via': via}, st.sampled_from(['shared', 'deepcopy', 'ix', 'safecopy']))
+_read_op = st.builds(lambda w: {'op': 'read', 'what': w}, st.sampled_from(['dvect', 'dmag', 'df', 'str', 'box_params', 'normalize']))
+_other_op = st.builds(lambda p: {'op': 'other_wrap', 'pbc': p}, _pbcs)
+_int16 = st.integers(0, 15)
+_int4 = st.integers(0, 3)
 
 
-def apply_prior(system, prior, labels):
-    if prior == 'scaled_read':
-        system.atoms_prop(key='pos', scale=True)
-        system.box.reciprocal_vects
-        labels.add('prior_scaled_read')
-    elif prior == 'wrap_first':
-        system.wrap()
-        labels.add('prior_wrap')
+def _hist_strategy(exact):
+    """2 cases in 8 (3 in 8 for exact) are a fresh object; otherwise 1-4 operations, 6 in 16 of them a periodicity change.
+    (st.one_of drops repeated alternatives, so the weights are drawn explicitly.)"""
+    @st.composite
+    def hist(draw):
+        if draw(_int8) < (3 if exact else 2):
+            return []
+        ops = []
+        for _ in range(1 + draw(_int4) if not exact else 1 + draw(_int4) % 3):
+            j = draw(_int16)
+            if j < 6:
+                ops.append(draw(_pbc_op))
+            elif j < 8:
+                ops.append(draw(_scaled_read_op))
+            elif j < 10:
+                ops.append(draw(_rebuild_exact_op if exact else _rebuild_op))
+            elif j < 12:
+                ops.append(draw(_read_op))
+            elif j < 13:
+                ops.append(draw(_other_op))
+            elif exact:
+                ops.append(draw(_pbc_op))
+            elif j < 14:
+                ops.append(draw(_wrap_op))
+            elif j < 15:
+                ops.append(draw(_box_op))
+            else:
+                ops.append(draw(_pos_op))
+        return ops
+    return hist()
+
+
+# exactly representable inputs stay exactly representable under the operations of _hist_exact
+_hist = _hist_strategy(False)
+_hist_exact = _hist_strategy(True)
+
+# documented input forms (Atoms: "list/ndarray"; Box: "array-like"; System.pbc: "tuple or list of bool" / bool ndarray)
+_pos_form = st.sampled_from(['float', 'float', 'float', 'float', 'float', 'float', 'float', 'float', 'list', 'list', 'fortran', 'strided',
+                             'int_array', 'int_list'])
+_box_form = st.sampled_from(['array', 'array', 'array', 'list', 'tuple', 'fortran', 'readonly', 'avects'])
+_pbc_form = st.sampled_from(['list', 'list', 'tuple', 'ndarray', 'ndarray', 'int_list', 'int_array', 'npbool', 'strided', 'readonly'])
+_one_in_5 = st.sampled_from([False, False, False, False, True])
+_forms = st.builds(lambda a, b, c, d, e: {'pos': a, 'box': b, 'pbc': c, 'scaled': d, 'safecopy': e},
+                   _pos_form, _box_form, _pbc_form, _one_in_5, _one_in_5)
+
+
+def final_pbc(pbc0, hist):
+    pbc = list(pbc0)
+    for op in hist:
+        if op['op'] == 'pbc':
+            pbc = list(op['to'])
+    return pbc
 
 
 @st.composite
@@ -188,8 +613,10 @@ def wrap_cases(draw):
     c = draw(_cells)
     far = draw(_int6) == 0
     rel = draw(_points_far if far else _points)
-    return {'cell': c, 'pbc': draw(_pbcs), 'rel': rel, 'nprops': draw(_nprops),
-            'ret': draw(_int6) != 0, 'symbols': draw(_bool), 'prior': draw(_prior_wrap)}
+    pbc0, hist = draw(_pbcs), draw(_hist)
+    # 'pbc' is the periodicity at the judged call, 'pbc0' the one given to the constructor
+    return {'cell': c, 'pbc0': pbc0, 'pbc': final_pbc(pbc0, hist), 'rel': rel, 'nprops': draw(_nprops),
+            'ret': draw(_int6) != 0, 'symbols': draw(_bool), 'hist': hist, 'forms': draw(_forms)}
 
 
 _pow2 = st.sampled_from([0.5, 1.0, 2.0, 4.0, 8.0, 16.0])
@@ -205,8 +632,9 @@ def wrap_exact_cases(draw):
     xy, xz, yz = draw(_dy_tilt) * lx, draw(_dy_tilt) * lx, draw(_dy_tilt) * ly
     c = {'lx': lx, 'ly': ly, 'lz': lz, 'xy': xy, 'xz': xz, 'yz': yz,
          'origin': [draw(_dy_origin) for _ in range(3)], 'rot': None, 'lefthanded': draw(_bool)}
-    return {'cell': c, 'pbc': draw(_pbcs), 'rel': draw(_dy_points), 'nprops': draw(_nprops),
-            'ret': True, 'symbols': False}
+    pbc0, hist = draw(_pbcs), draw(_hist_exact)
+    return {'cell': c, 'pbc0': pbc0, 'pbc': final_pbc(pbc0, hist), 'rel': draw(_dy_points), 'nprops': draw(_nprops),
+            'ret': True, 'symbols': False, 'hist': hist, 'forms': draw(_forms)}
 
 
 @st.composite
@@ -214,9 +642,13 @@ def normalize_cases(draw):
     c = draw(_cells)
     far = draw(_int6) == 0
     rel = draw(_points_n_far if far else _points_n)
+    pbc0, hist = draw(_pbcs), draw(_hist)
+    if not all(final_pbc(pbc0, hist)):
+        # normalize is stated for fully periodic systems: the history ends by making the system fully periodic
+        hist = hist + [{'op': 'pbc', 'how': draw(_PBC_HOWS), 'to': [True, True, True]}]
     return {'cell': c, 'rel': rel, 'nprops': draw(_nprops), 'ret': draw(_int6) != 0,
             'via': draw(st.sampled_from(['method', 'method', 'function'])), 'symbols': draw(_bool),
-            'prior': draw(_prior_norm)}
+            'pbc0': pbc0, 'hist': hist, 'forms': draw(_forms)}
 
 
 # ----------------------------------------------------------------------------- wrap
@@ -226,21 +658,39 @@ def _is_dyadic(A, bits=24):
     return bool(np.all(A == np.rint(A)) and np.abs(A).max() < 2.0 ** 50)
 
 
-def oracle_wrap(case, exact=False):
+@keyed_for_integer_positions
+def oracle_wrap(case, exact=False, ctx_out=None):
     import atomman as am
     c = case['cell']
     pbc = [bool(p) for p in case['pbc']]
-    system, V, o, s, x, props = build_system(am, case, pbc)
+    pbc0 = [bool(p) for p in case.get('pbc0', pbc)]
+    hist = case_history(case)
+    if final_pbc(pbc0, hist) != pbc:
+        raise HarnessError("case['pbc'] is not the periodicity its history ends with")
+    system, V, o, s, x, props, ctx = build_system(am, case, pbc0, exact=exact)
+    if ctx_out is not None:
+        ctx_out['int_stored'] = ctx['int_stored']
     n = len(s)
     at0 = atypes(n)
     labels = gens.cell_labels(c)
-    if case.get('prior'):
-        apply_prior(system, case['prior'], labels)
-        if case['prior'] == 'wrap_first':
-            # the judged input is the system as the first wrap left it
-            exact = False
-            V = np.array(system.box.vects, dtype=float); o = np.array(system.box.origin, dtype=float)
-            x = np.array(system.atoms.pos, dtype=float); s = rel_coords(x, V, o)
+    form_labels(ctx, labels)
+    if not ctx['changed']:
+        Vc = np.array(system.box.vects, dtype=float)
+        require(np.abs(Vc - V).max() <= 1e-8 * float(np.abs(V).max()), lambda: 'System construction changed the cell: %r -> %r' % (V, Vc))
+        require(np.array_equal(np.array(system.atoms.pos, dtype=float), x), 'System construction changed the positions')
+    system = apply_history(am, system, hist, ctx, labels)
+    if ctx['changed']:
+        # the judged input is the system as its history left it
+        exact = False
+        V = np.array(system.box.vects, dtype=float); o = np.array(system.box.origin, dtype=float)
+        x = np.array(system.atoms.pos, dtype=float); s = rel_coords(x, V, o)
+        require(x.shape == (n, 3) and np.all(np.isfinite(x)) and np.all(np.isfinite(V)) and abs(np.linalg.det(V)) > 0,
+                'the history left a system without a finite cell / positions')
+    if pbc != pbc0:
+        labels.add('pbc_changed')
+    if pbc != ctx['cached']:
+        # the periodicity now differs from the one last given to the constructor / the setter of this object
+        labels.add('pbc_inplace')
     labels.add('pbc%d' % sum(pbc))
     if 0 < sum(pbc) < 3:
         labels.add('mixed_pbc')
@@ -253,9 +703,9 @@ def oracle_wrap(case, exact=False):
     if cond > 1e3:
         labels.add('illcond')
     Vb = np.array(system.box.vects, dtype=float)      # as stored (floor applied)
-    require(np.abs(Vb - V).max() <= 1e-8 * vmax, lambda: 'System construction changed the cell: %r -> %r' % (V, Vb))
+    require(np.abs(Vb - V).max() <= 1e-8 * vmax, lambda: 'the cell changed during a history that only reads / changes the periodicity: %r -> %r' % (V, Vb))
     x0 = np.array(system.atoms.pos, dtype=float)
-    require(np.array_equal(x0, x), 'System construction changed the positions')
+    require(np.array_equal(x0, x), 'the positions changed during a history that only reads / changes the periodicity')
 
     if exact:
         R = np.linalg.inv(Vb)
@@ -346,6 +796,9 @@ def oracle_wrap(case, exact=False):
         labels.add('wrapped')
     if np.abs(flags).max() >= 2:
         labels.add('multi_image')
+    if any(pbc[k] != ctx['cached'][k] and (np.any(s0[:, k] < -band0[k]) or np.any(s0[:, k] > 1 + band0[k])) for k in range(3)):
+        # an axis whose periodicity was changed in place since the last constructor / setter call, with an atom beyond its faces
+        labels.add('inplace_toggled_out')
     if out_before:
         labels.add('outside_before')
     if onface:
@@ -365,22 +818,40 @@ def oracle_wrap_exact(case):
 
 # ----------------------------------------------------------------------------- normalize
 
-def oracle_normalize(case):
+@keyed_for_integer_positions
+def oracle_normalize(case, ctx_out=None):
     import atomman as am
     from atomman.lammps import normalize as lmp_normalize
     c = case['cell']
     pbc = [True, True, True]
-    system, V, o, s, x, props = build_system(am, case, pbc)
+    pbc0 = [bool(p) for p in case.get('pbc0', pbc)]
+    hist = case_history(case)
+    if final_pbc(pbc0, hist) != pbc:
+        raise HarnessError('normalize case whose history does not end fully periodic')
+    labels = gens.cell_labels(c)
+    if float(np.linalg.cond(gens.cell_vects(c))) > 1e3:
+        return labels | {'illcond_skipped'}
+    system, V, o, s, x, props, ctx = build_system(am, case, pbc0)
+    if ctx_out is not None:
+        ctx_out['int_stored'] = ctx['int_stored']
     n = len(s)
     at0 = atypes(n)
-    labels = gens.cell_labels(c)
+    form_labels(ctx, labels)
+    system = apply_history(am, system, hist, ctx, labels)
+    if ctx['changed']:
+        # the judged input is the system as its history left it
+        V = np.array(system.box.vects, dtype=float); o = np.array(system.box.origin, dtype=float)
+        x = np.array(system.atoms.pos, dtype=float)
+        require(x.shape == (n, 3) and np.all(np.isfinite(x)) and np.all(np.isfinite(V)) and abs(np.linalg.det(V)) > 0,
+                'the history left a system without a finite cell / positions')
+        s = rel_coords(x, V, o)
     cond = float(np.linalg.cond(V))
     if cond > 1e3:
         return labels | {'illcond_skipped'}
-    if case.get('prior'):
-        apply_prior(system, case['prior'], labels)
-        if case['prior'] == 'wrap_first':
-            x = np.array(system.atoms.pos, dtype=float); s = rel_coords(x, V, o)
+    if pbc != pbc0:
+        labels.add('pbc_changed')
+    if pbc != ctx['cached']:
+        labels.add('pbc_inplace')
     vmax, omax = float(np.abs(V).max()), float(np.abs(o).max())
     smax = max(1.0, float(np.abs(s).max()))
     xmax = float(np.abs(x).max())
@@ -390,6 +861,9 @@ def oracle_normalize(case):
     s0 = rel_coords(x, Vb, o)
     band0 = inside_band(Vb, o, smax, xmax)
     out_before = bool(np.any((s0 < -band0) | (s0 > 1 + band0)))
+    if any((not ctx['cached'][k]) and (np.any(s0[:, k] < -band0[k]) or np.any(s0[:, k] > 1 + band0[k])) for k in range(3)):
+        # an axis made periodic in place since the last constructor / setter call, with an atom beyond its faces
+        labels.add('inplace_toggled_out')
     snap = snapshot(system)
 
     f = (lambda **kw: system.normalize(**kw)) if case['via'] == 'method' else (lambda **kw: lmp_normalize(system, **kw))
@@ -500,16 +974,23 @@ def oracle_normalize(case):
 
 
 CLAUSES = [
-    Clause('wrap', oracle_wrap, wrap_cases, quick=7000, thorough=150000,
+    Clause('wrap', oracle_wrap, wrap_cases, quick=5500, thorough=150000,
            min_share={'nt': 0.35, 'lefthanded': 0.2, 'tilted': 0.3, 'mixed_pbc': 0.3, 'pbc3': 0.12, 'pbc0': 0.04, 'grew': 0.25,
-                      'wrapped': 0.3, 'multi_image': 0.25, 'far': 0.04, 'props': 0.3, 'flags_returned': 0.35, 'onface': 0.4},
-           desc='wrap: moves = imageflags.vects on periodic axes only, periodic vectors unchanged, cell only grows, all atoms inside, properties untouched'),
-    Clause('wrap_exact', oracle_wrap_exact, wrap_exact_cases, quick=3000, thorough=50000,
-           min_share={'exact': 0.5, 'nt': 0.35, 'onface': 0.4, 'far': 0.3, 'pbc3': 0.1, 'mixed_pbc': 0.3},
-           desc='wrap on exactly representable inputs (atoms exactly on faces, far outside): zero tolerance, zero band on periodic axes'),
-    Clause('normalize', oracle_normalize, normalize_cases, quick=5000, thorough=100000,
+                      'wrapped': 0.3, 'multi_image': 0.25, 'far': 0.04, 'props': 0.3, 'flags_returned': 0.35, 'onface': 0.4,
+                      'hist': 0.25, 'pbc_changed': 0.12, 'pbc_inplace': 0.07, 'inplace_toggled_out': 0.05, 'pbc_elem': 0.1,
+                      'pbc_setter': 0.08, 'forms': 0.35, 'pbc_form': 0.28, 'box_form': 0.2, 'pos_scaled_ctor': 0.06,
+                      'pos_list': 0.05, 'hist_rebuild': 0.05, 'hist_read': 0.06, 'hist_box_set': 0.025, 'hist_pos_edit': 0.03,
+                      'prior_wrap': 0.03, 'prior_scaled_read': 0.07},
+           desc='wrap: moves = imageflags.vects on periodic axes only, periodic vectors unchanged, cell only grows, all atoms inside, properties untouched; after any history, every input form'),
+    Clause('wrap_exact', oracle_wrap_exact, wrap_exact_cases, quick=2400, thorough=50000,
+           min_share={'exact': 0.5, 'nt': 0.35, 'onface': 0.4, 'far': 0.3, 'pbc3': 0.1, 'mixed_pbc': 0.3,
+                      'hist': 0.25, 'pbc_changed': 0.15, 'pbc_inplace': 0.08, 'inplace_toggled_out': 0.07, 'forms': 0.35},
+           desc='wrap on exactly representable inputs (atoms exactly on faces, far outside): zero tolerance, zero band on periodic axes; after exactness-preserving histories'),
+    Clause('normalize', oracle_normalize, normalize_cases, quick=4000, thorough=100000,
            min_share={'nt': 0.35, 'lefthanded': 0.2, 'rotated': 0.2, 'tilted': 0.3, 'pairs': 0.35, 'transform_returned': 0.3,
-                      'via_function': 0.12, 'far': 0.04, 'props': 0.3},
+                      'via_function': 0.12, 'far': 0.04, 'props': 0.3,
+                      'hist': 0.35, 'pbc_changed': 0.3, 'pbc_inplace': 0.2, 'inplace_toggled_out': 0.15, 'forms': 0.35,
+                      'hist_box_set': 0.03, 'hist_pos_edit': 0.03, 'hist_rebuild': 0.05},
            max_share={'illcond_skipped': 0.05},
-           desc='normalize: input untouched, new right-handed LAMMPS cell with same lengths/angles/volume, proper rotation maps old vectors to new, atoms inside, nearest-image distances unchanged'),
+           desc='normalize: input untouched, new right-handed LAMMPS cell with same lengths/angles/volume, proper rotation maps old vectors to new, atoms inside, nearest-image distances unchanged; after any history ending fully periodic, every input form'),
 ]
